@@ -283,6 +283,19 @@ def run(ctx: Ctx) -> int:
         okb = any(any("self_name" in ast.unparse(t) and pol for t, pol in guard_atoms(r, stop=fub)) for r in false_rets) or any(isinstance(r, ast.Return) and r.value is not None and "self_name" in ast.unparse(r.value) for r in walk_local(fub))
         ctx.oblige("C13.b", okb, fub, "a call whose receiver is the method's own instance parameter is a bound call" if okb else "is_unbound_method_call no longer excludes receivers named like the instance parameter: `self.configure(8, **kwargs)` is treated like `Class.configure(self, 8, **kwargs)`, positions shift by one and the hard-coded parameter stays offered", fn=fub, construct="self receiver is bound")
 
+    # the "instance is given explicitly" fact belongs to ONE call node: it is re-initialised for every call the loop looks at
+    for c in [c for c in calls_in(fa) if call_leaf(c) == "remove_given_parameters"]:
+        flagv = next((k.value for k in c.keywords if k.arg not in (None, "removed_params")), c.args[3] if len(c.args) > 3 else None)
+        if isinstance(flagv, ast.Name):
+            from .srcmodel import ancestors as _anc13
+
+            loop13 = next((a_ for a_ in _anc13(c) if isinstance(a_, ast.For)), None)
+            defs13 = _assigns(fa, flagv.id)
+            inside = [d for d in defs13 if loop13 is not None and any(d is x for x in ast.walk(loop13))]
+            resets = [d for d in inside if isinstance(d.value, ast.Constant) and d.value.value is False]
+            ok = loop13 is not None and bool(resets) and len(inside) == len(defs13) and g.dominates(g.cn(resets), g.cn(c), exclude_labels={"e"}) and not any(g.can_reach(g.cn(c), g.cn(r), exclude_labels={"e"}, removed=[a for (a, _t, _l) in g.branch_edges(loop13, "loop")]) for r in resets)
+            ctx.oblige("C13.b", ok, c, f"`{flagv.id}` is reset for every call node" if ok else f"`{flagv.id}` is not re-initialised inside the loop over the calls that use **kwargs: after `Mixin.__init__(self, **kwargs)` the flag stays set for the following `super().__init__('child', **kwargs)`, whose positions are then shifted as well - the parameter it hard-codes stays offered", fn=fa, construct="instance flag per call node")
+
     # =========================================================== C13.c
     fs = ctx.func(f"{M}:split_args_and_kwargs")
     comps = [s for s in _assigns(fs) if isinstance(s.value, ast.ListComp)]
